@@ -227,6 +227,7 @@ func init() {
 			return err
 		}
 		defer out.close()
+		nbad := 0
 		return readCases(args[0], func(raw []byte) error {
 			var c tCase
 			if err := json.Unmarshal(raw, &c); err != nil {
@@ -235,7 +236,18 @@ func init() {
 			src := renderTry(c.Prog)
 			refS := norm(c.Exp.O) + "|" + norm(c.Exp.L)
 			r := map[string]any{"src": src, "ref": refS, "ok": true}
-			defer out.put(r)
+			defer func() {
+				out.put(r)
+				if ok, _ := r["ok"].(bool); !ok {
+					nbad++
+				}
+			}()
+			if nbad >= 30 {
+				// enough evidence: every failing program may cost the whole watchdog time
+				delete(r, "ok")
+				r["skip"] = "stopped after 30 failing programs"
+				return nil
+			}
 			bc, err := ugo.Compile([]byte(src), ugo.CompilerOptions{})
 			if err != nil {
 				r["ok"], r["what"] = false, "compile: "+err.Error()
@@ -261,7 +273,32 @@ func init() {
 					r["ok"], r["what"] = false, "decoder error: "+err.Error()
 					return
 				}
-				o, l, _ := runTryBC(got)
+				// a wrong target may send the decoded program anywhere: watchdog
+				type rres struct{ o, l any }
+				rch := make(chan rres, 1)
+				gvm := ugo.NewVM(got).SetRecover(true)
+				gg := ugo.Map{"log": ugo.Array{}}
+				go func() {
+					defer func() {
+						if p := recover(); p != nil {
+							rch <- rres{[]any{"goerr", fmt.Sprint("panic: ", p)}, nil}
+						}
+					}()
+					ret, rerr := gvm.Run(gg)
+					rch <- rres{outcomeOf(ret, rerr), objToAny(gg["log"])}
+				}()
+				var o, l any
+				select {
+				case x := <-rch:
+					o, l = x.o, x.l
+				case <-time.After(5 * time.Second):
+					for i := 0; i < 2000; i++ {
+						gvm.Abort()
+						time.Sleep(time.Millisecond)
+					}
+					r["ok"], r["what"] = false, "the program decoded from version 1 did not end within 5 s"
+					return
+				}
 				real := norm(o) + "|" + norm(l)
 				r["real"] = real
 				if real != refS {
